@@ -665,7 +665,7 @@ func judgeC14Builtin(c c14Case) (v core.Verdict) {
 
 func TestC14(t *testing.T) {
 	core.Run(t, "C14",
-		"abstract call chains (base value, 1-4 stages over reflected Go functions of arity 1-3, a variadic one, one needing int conversion, arguments handed through a function declared to return interface{}, value and pointer methods (two with non-ASCII names) and a jet.Func; piped value at any string position; extra arguments literal or variable, numeric literals converted to int, variadic tails of 0-3) printed in every surface form (nested plain calls, prefix colon, x | f, x | f: a, x | f(a), slots x | f(a, _) and x | f: a, _), all forms compared with the directly applied chain: rendered bytes and a call log showing each stage once, left to right; jet.Func vs reflected variadic twin receive the same arguments; misuse shapes that must be errors incl. nil functions, arguments that only look convertible, placeholders without a piped value for jet.Funcs, variadic tails of non-empty interface types handed values that do not implement them; 24 built-in templates over generated inputs compared with the Go function the docs name; also: functions taken out of a map or a struct's map as call targets (fns[\"two\"], tools.Funcs[\"three\"], a jet.Func in a map) in every call form; integers beyond 2^53 read through Arguments.ParseInto; a placeholder without a pipe where the call is part of an expression / assignment / condition; round 10: results of a named empty interface type as arguments; a plain func(io.Writer, []byte) that is not a SafeWriter; a parameter of an interface type with methods (right and wrong arguments); non-trivial = >=2 stages, a slot at position >=1, or a numeric conversion",
+		"abstract call chains (base value, 1-4 stages over reflected Go functions of arity 1-3, a variadic one, one needing int conversion, arguments handed through a function declared to return interface{}, value and pointer methods (two with non-ASCII names) and a jet.Func; piped value at any string position; extra arguments literal or variable, numeric literals converted to int, variadic tails of 0-3) printed in every surface form (nested plain calls, prefix colon, x | f, x | f: a, x | f(a), slots x | f(a, _) and x | f: a, _), all forms compared with the directly applied chain: rendered bytes and a call log showing each stage once, left to right; jet.Func vs reflected variadic twin receive the same arguments; misuse shapes that must be errors incl. nil functions, arguments that only look convertible, placeholders without a piped value for jet.Funcs, variadic tails of non-empty interface types handed values that do not implement them; 24 built-in templates over generated inputs compared with the Go function the docs name; also: functions taken out of a map or a struct's map as call targets (fns[\"two\"], tools.Funcs[\"three\"], a jet.Func in a map) in every call form; integers beyond 2^53 read through Arguments.ParseInto; a placeholder without a pipe where the call is part of an expression / assignment / condition; round 10: results of a named empty interface type as arguments; a plain func(io.Writer, []byte) that is not a SafeWriter; a parameter of an interface type with methods (right and wrong arguments); round 11: len of collections in slots of interface types with methods; a surplus '_' in last position with nothing piped in; non-trivial = >=2 stages, a slot at position >=1, or a numeric conversion",
 		genC14, judgeC14)
 }
 
